@@ -103,6 +103,7 @@ pub fn patch_doc(p: &Patch, counter: u32) -> Vec<u8> {
         Patch::RemovePad => br#"[{"op":"remove","path":"/pad"}]"#.to_vec(),
         Patch::TestWrong => br#"[{"op":"test","path":"/k","value":-1},{"op":"replace","path":"/n","value":0}]"#.to_vec(),
         Patch::Garbage => b"[{not json".to_vec(),
+        Patch::NoOp => br#"[{"op":"add","path":"/zz_tmp","value":1},{"op":"remove","path":"/zz_tmp"}]"#.to_vec(),
     }
 }
 
@@ -459,9 +460,15 @@ pub fn resolve_call(
                 (Expect::Current, Some(g)) => g.value.clone(),
                 _ => b"definitely-not-the-current-value".to_vec(),
             };
+            // a value of length 0 stands for "the value the key holds now": a swap that changes
+            // nothing but the version
+            let value = match (&g, val.len) {
+                (Some(g), 0) => g.value.clone(),
+                _ => r.value(*key % keys.len(), val, store),
+            };
             Call::Cas {
                 expected,
-                value: r.value(*key % keys.len(), val, store),
+                value,
                 ts: resolve_ts(ts, g.map(|g| g.ts), now),
                 ttl: *ttl,
                 key: kb,
